@@ -281,6 +281,28 @@ theorem go_le : ∀ e, Tot1 e := by
     obtain ⟨ts, Γ1, s1, h1, l1⟩ := ih.2.2.2.1 s.mark.fresh.1 G Γ s.mark.fresh.2
     simp only [h1]
     exact finish_tot ((le_mark _).trans ((le_fresh _).trans l1)) _ _ _ _ _
+  -- constr
+  · intro i info args ih exp G Γ s
+    cases info with
+    | none => rw [go]; exact finish_tot (by le_auto) _ _ _ _ _
+    | some o =>
+      cases o with
+      | none => rw [go]; exact finish_tot (by le_auto) _ _ _ _ _
+      | some pr =>
+        obtain ⟨cty, arity⟩ := pr
+        rw [go]
+        dsimp only
+        split
+        · exact finish_tot (by le_auto) _ _ _ _ _
+        · cases hps : (ctorParams (s.mark.inst cty).1).isEmpty with
+          | true =>
+            obtain ⟨ts, Γ1, s1, h1, l1⟩ := ih.1 G Γ (s.mark.inst cty).2
+            simp only [if_true, h1]
+            exact finish_tot ((le_mark _).trans ((le_inst _ _).trans (l1.trans (le_push _ _)))) _ _ _ _ _
+          | false =>
+            obtain ⟨ts, Γ1, s1, h1, l1⟩ := ih.2.1 (ctorParams (s.mark.inst cty).1) G Γ (s.mark.inst cty).2
+            simp only [Bool.false_eq_true, if_false, h1]
+            exact finish_tot ((le_mark _).trans ((le_inst _ _).trans (l1.trans (le_push _ _)))) _ _ _ _ _
   -- arm
   · intro p body ih; exact ih
   -- []
